@@ -21,14 +21,16 @@ Box == <<BoxLo(sh, cx, 1, Q, R), BoxHi(sh, cx, 1, Q, R), BoxLo(sh, cy, 2, Q, R),
 Case == LET bx == Box IN
   [shape |-> sh, cx |-> cx, cy |-> cy, q |-> Q, s |-> s, box |-> bx,
    boxtie |-> (BoxTie(sh, cx, 1, Q, R) \/ BoxTie(sh, cy, 2, Q, R)),
-   lower |-> [row \in 1..(bx[4] - bx[3]) |-> [col \in 1..(bx[2] - bx[1]) |-> Count(sh, cx, cy, bx[3] + row - 1, bx[1] + col - 1, s, Q, FALSE)]],
-   upper |-> [row \in 1..(bx[4] - bx[3]) |-> [col \in 1..(bx[2] - bx[1]) |-> Count(sh, cx, cy, bx[3] + row - 1, bx[1] + col - 1, s, Q, TRUE)]]]
+   lower |-> [row \in 1..(bx[4] - bx[3]) |-> [col \in 1..(bx[2] - bx[1]) |-> Count(sh, cx, cy, bx[3] + row - 1, bx[1] + col - 1, s, Q, "lower")]],
+   impl |-> [row \in 1..(bx[4] - bx[3]) |-> [col \in 1..(bx[2] - bx[1]) |-> Count(sh, cx, cy, bx[3] + row - 1, bx[1] + col - 1, s, Q, "impl")]],
+   upper |-> [row \in 1..(bx[4] - bx[3]) |-> [col \in 1..(bx[2] - bx[1]) |-> Count(sh, cx, cy, bx[3] + row - 1, bx[1] + col - 1, s, Q, "upper")]]]
 Observe == ~done /\ done' = TRUE /\ (Emit => PrintT(<<"GEN", ToJson(Case)>>)) /\ UNCHANGED <<sh, cx, cy, s>>
 Spec == Init /\ [][Observe]_vars
 \* design-level sanity of the model: strict <= non-strict; nothing of the shape lies outside the box (every sub-centre of the ring of
 \* pixels around the box is outside); annulus counts never exceed s^2
 LowerLeUpper == \A row \in Box[3]..(Box[4] - 1), col \in Box[1]..(Box[2] - 1) :
-                  Count(sh, cx, cy, row, col, s, Q, FALSE) <= Count(sh, cx, cy, row, col, s, Q, TRUE) /\ Count(sh, cx, cy, row, col, s, Q, TRUE) <= s * s
+                  Count(sh, cx, cy, row, col, s, Q, "lower") <= Count(sh, cx, cy, row, col, s, Q, "impl") /\ Count(sh, cx, cy, row, col, s, Q, "impl") <= Count(sh, cx, cy, row, col, s, Q, "upper")
+                  /\ Count(sh, cx, cy, row, col, s, Q, "upper") <= s * s
 BoxContainsShape == \A row \in (Box[3] - 1)..Box[4], col \in (Box[1] - 1)..Box[2] :
-                      (row < Box[3] \/ row >= Box[4] \/ col < Box[1] \/ col >= Box[2]) => Count(sh, cx, cy, row, col, s, Q, FALSE) = 0
+                      (row < Box[3] \/ row >= Box[4] \/ col < Box[1] \/ col >= Box[2]) => Count(sh, cx, cy, row, col, s, Q, "lower") = 0
 =============================================================================
